@@ -82,7 +82,7 @@ def main(argv=None):
                           open(os.path.join(core.VERIF, "ledger", name + ".json"), "w"), indent=1, sort_keys=True)
         if tier == "thorough":
             from . import mutants
-            mres = mutants.run_catalogue(prop, mods, scratch, a.jobs)
+            mres = mutants.run_catalogue(prop, mods, scratch, a.jobs) if not a.unit else None
         else:
             mres = None
         return verdict(prop, tier, seed, mods, results, time.time() - t0, write=not (a.unit or a.no_evidence or os.environ.get('VERIF_NO_EVIDENCE')), mres=mres, scratch=scratch)
@@ -98,6 +98,7 @@ def verdict(prop, tier, seed, mods, results, wall, write=True, mres=None, scratc
     known_ids = {e["obligation"]: e for e in known}      # an obligation may serve several properties
     undecided = [r for r in results if r.undecided]
     obligations = {}
+    bounded_obl = {}       # bounded stand-ins (simulation corpus): reported, never counted as proof obligations
     failed = {}
     for r in results:
         if r.undecided:
@@ -105,12 +106,15 @@ def verdict(prop, tier, seed, mods, results, wall, write=True, mres=None, scratc
         for o in r.obligations:
             if prop in o["props"]:
                 key = o["id"] + (("@" + r.cfg) if r.cfg else "")
-                obligations[key] = dict(o, cfg=r.cfg)
+                if o.get("bounded"):
+                    bounded_obl[key] = dict(o, cfg=r.cfg)
+                else:
+                    obligations[key] = dict(o, cfg=r.cfg)
         for f in r.failed:
             if prop in f["props"]:
                 key = f["id"] + (("@" + r.cfg) if r.cfg else "")
                 failed[key] = f
-                if key not in obligations:   # side condition discovered by the verifier
+                if key not in obligations and key not in bounded_obl:   # side condition discovered by the verifier
                     obligations[key] = {"id": f["id"], "props": f["props"], "clause": f["clause"], "backend": "verus/z3" if r.unit.tool == "verus" else "kani/cbmc", "unit": r.unit.name, "cfg": r.cfg, "side_condition": True}
     # implicit side conditions: each verus query (function / loop) that verified carries its
     # overflow / index / unwrap / unreachable obligations; counted from the verifier's own report.
@@ -142,9 +146,18 @@ def verdict(prop, tier, seed, mods, results, wall, write=True, mres=None, scratc
         for m in mres.get("missed", []):
             out_lines.append("UNDECIDED mutant-catalogue: seeded change %s was not caught by %s" % (m["name"], m["expect"]))
     # obligations recorded as known findings are reported separately and not counted as obligations of this run
-    n_known = len(known_seen)
+    n_known = len([1 for e, f in known_seen if (f["id"] + (("@" + f["cfg"]) if f.get("cfg") else "")) not in bounded_obl])
+    n_viol_proof = len([1 for key, f in violations if key not in bounded_obl])
     n_obl = len(obligations) + implicit - n_known
-    discharged = n_obl - len(violations)
+    discharged = n_obl - n_viol_proof
+    bounded_info = None
+    if bounded_obl:
+        bfailed = [k for k in bounded_obl if k in failed]
+        bounded_info = {"label": "BOUNDED stand-in, not a proof and not counted in obligations/discharged: programs compiled by the real compiler, emitted code executed on a 6502 interpreter "
+                                 "from stated initial values, result compared with C semantics",
+                        "groups": len(bounded_obl), "groups_agreeing": len(bounded_obl) - len(bfailed),
+                        "programs": sum(getattr(r, "programs", 0) for r in results if r.unit.tool == "sim" and not r.undecided),
+                        "groups_disagreeing": sorted(bfailed), "bound": "the listed programs and initial values only"}
     ev = {
         "property_id": prop,
         "tier": tier,
@@ -168,6 +181,7 @@ def verdict(prop, tier, seed, mods, results, wall, write=True, mres=None, scratc
             "undecided_units": [r.unit.name for r in undecided],
             "explanation": "obligations = named contract clauses (ensures / invariant / call-site requires / asserts / Kani harnesses) generated from /repo's current text for this property + verifier queries carrying the implicit panic-freedom side conditions of the functions under contract; discharged = those the back end accepted on this run",
             "mutant_catalogue": mut_info,
+            "bounded_stand_in": bounded_info,
         },
         "assumptions": sorted(set(sum([list(r.unit.assumptions) for r in results], []))),
         "wall_s": round(wall, 2),
@@ -179,8 +193,9 @@ def verdict(prop, tier, seed, mods, results, wall, write=True, mres=None, scratc
             json.dump(ev, f, indent=1)
     for l in out_lines:
         print(l)
-    print("%s tier=%s units=%d obligations=%d discharged=%d known=%d violations=%d undecided=%d wall=%.1fs" % (
-        prop, tier, len(results), n_obl, discharged, len(known_seen), len(violations), len(undecided), wall))
+    print("%s tier=%s units=%d obligations=%d discharged=%d known=%d violations=%d undecided=%d%s wall=%.1fs" % (
+        prop, tier, len(results), n_obl, discharged, len(known_seen), len(violations), len(undecided),
+        (" bounded-groups=%d/%d" % (bounded_info["groups_agreeing"], bounded_info["groups"])) if bounded_info else "", wall))
     if violations:
         return 1
     if undecided or (mres and mres.get("missed")):
